@@ -101,7 +101,9 @@ def gen_writer_program(rng, x, kind="mixed", types=None, nsig=None, twr=False, m
                    "rate": rng.choice([1000, 1, 48000, 2000000, 1000000000]), "base": base, "tbase": rng.choice([0, 1700000000 * (1 << 30)]),
                    "next": first, "first": first, "end": first + total, "norm": (nspd, nsdf, neps, nsumdf),
                    "defined": False, "nanno": 0, "nutc": 0, "written": 0, "anno_ts": first, "utc_id": first, "utc_t": 0,
-                   "gen": rng.choice([g_ for g_ in gens if g_[0] != "ramp" or g_[1] <= ramp_limit(dt)]) if gens else ["rnd"]}
+                   "gen": rng.choice([g_ for g_ in gens if g_[0] != "ramp" or g_[1] <= ramp_limit(dt)]) if gens
+                          else (["bpat", rng.choice([0x10, 0x31, 0x73, 0xF5, 0x55, 0xAA, 0x01, 0x80, 0x33, rng.randint(0, 255)])]
+                                if WIDTH[dt] <= 8 and rng.random() < 0.3 else ["rnd"])}
     pending = list(sig_ids)
     # define at least one signal before data; others possibly later
     def define(g):
